@@ -576,7 +576,7 @@ func (s *session) judgeReply(handler string, rq *request, replies []wire.Msg, cl
 }
 
 func (s *session) prep(fam string, n int, sizes []uint64, data interface{}, rng *rand.Rand) *request {
-	rq := &request{fam: s.fams[fam], list: "node/" + s.cfg.name, n: n, sizes: sizes, data: data}
+	rq := &request{fam: s.fams[fam], list: "node/" + s.cfg.name, n: n, sizes: sizes, data: data, capLow: -1}
 	if !prepare(s.r, rq, rng) {
 		s.dead = true
 		return nil
